@@ -110,19 +110,30 @@ def info_of(d):
         info["X"] = dict(d["X"])
     for blk, key in d.get("by_call") or []:      # handed over as a call keyword instead (the block itself stays in the description)
         info[blk].pop(key, None)
+    if d.get("by_call_noblock"):                 # ... or the description has no "Y" / "X" block at all and the keywords say everything
+        info.pop("Y", None)
+        info.pop("X", None)
     return info
 
 
 _CALL_KW = {("Y", "Scale"): "yscale", ("Y", "Offset"): "yoffset", ("X", "Offset"): "xoffset"}
 
 
-def call_kw_of(d):
+def call_kw_of(d, cfg=None):
+    kw = _call_kw_of(d)
+    if d.get("forward_cfg") and cfg is not None:      # extra keywords a caller forwards (its own settings dict): not add_dataset's business
+        m = cfg["mat"]
+        kw.update({"NumberDensity": m["rho"], "<b_coh>^2": m["bcoh"], "<b_tot^2>": m["btot"], "RealSpaceFunction": "g(r)"})
+    return kw
+
+
+def _call_kw_of(d):
     """manipulations the caller gives as keywords of add_dataset rather than in the dataset description (the description wins where it
     has the entry; the keyword fills in what it leaves out)"""
     return {_CALL_KW[(blk, key)]: d[blk][key] for blk, key in d.get("by_call") or []}
 
 
-def read_via_file(stog, info, d):
+def read_via_file(stog, info, d, cfg=None):
     """the dataset arrives through read_dataset: the columns are written to a text file (shortest round-tripping decimals, two header
     lines) in the default column order or in another one named by xcol / ycol / dycol; the description is the same"""
     import os
@@ -149,7 +160,7 @@ def read_via_file(stog, info, d):
             for row in zip(*cols):
                 fh.write(" ".join(repr(float(v)) for v in row) + "\n")
         info["Filename"] = name
-        stog.read_dataset(info, **dict(kw, **call_kw_of(d)))
+        stog.read_dataset(info, **dict(kw, **call_kw_of(d, cfg)))
     finally:
         shutil.rmtree(tmp, ignore_errors=True)
 
@@ -202,9 +213,9 @@ def run_sequence(pystog, cfg, datasets):
             info = info_of(d)
         infos.append(info)
         if d.get("via_file") and d.get("reuse_info_of") is None:
-            read_via_file(stog, info, d)
+            read_via_file(stog, info, d, cfg)
         else:
-            stog.add_dataset(info, **call_kw_of(d))
+            stog.add_dataset(info, **call_kw_of(d, cfg))
         sn = snap(stog)
         sn["mat"] = dict(cur)
         if rej is not None:
